@@ -57,6 +57,8 @@ type LOp struct {
 	// Multi > 0: a "build" op hands its rules over as TWO resources (rules[:Multi], rules[Multi:]) to
 	// BuildRuleFromResources instead of one resource to BuildRuleFromResource.
 	Multi int `json:"multi,omitempty"`
+	// FreshBuilder: the build uses a new RuleBuilder instead of the library's long-lived one.
+	FreshBuilder bool `json:"fresh_builder,omitempty"`
 }
 
 // LExtra is the payload of a library-history scenario.
@@ -151,6 +153,24 @@ type libRun struct {
 	}
 	res      *LibResult
 	rejected bool // some build has been rejected in this history
+	builders map[int]*builder.RuleBuilder // one long-lived builder per library, as applications keep them
+}
+
+// builderFor returns the library's long-lived builder, or a new one when the operation asks for it.
+func (lr *libRun) builderFor(li int, fresh bool) *builder.RuleBuilder {
+	if fresh {
+		lr.res.Probes["build.new-builder"]++
+		return builder.NewRuleBuilder(lr.libs[li])
+	}
+	if lr.builders == nil {
+		lr.builders = map[int]*builder.RuleBuilder{}
+	}
+	if lr.builders[li] == nil {
+		lr.builders[li] = builder.NewRuleBuilder(lr.libs[li])
+	} else {
+		lr.res.Probes["build.builder-reused"]++
+	}
+	return lr.builders[li]
 }
 
 func (lr *libRun) violate(oracle, msg string) {
@@ -373,7 +393,7 @@ func (lr *libRun) step(oi int, op LOp) {
 				var berr error
 				func() {
 					defer func() { _ = recover() }()
-					berr = builder.NewRuleBuilder(lib).BuildRuleFromResource(name, ver, resrc)
+					berr = lr.builderFor(op.Lib, op.FreshBuilder).BuildRuleFromResource(name, ver, resrc)
 				}()
 				if berr == nil {
 					lr.violate("reader-error-swallowed", fmt.Sprintf("op %d: the resource reader failed at read %d but BuildRuleFromResource returned nil", oi+1, op.FailAt))
@@ -394,11 +414,11 @@ func (lr *libRun) step(oi int, op LOp) {
 				defer func() { p = recover() }()
 				if multi {
 					res.Probes["build.two-resources"]++
-					berr = builder.NewRuleBuilder(lib).BuildRuleFromResources(name, ver, []pkg.Resource{
+					berr = lr.builderFor(op.Lib, op.FreshBuilder).BuildRuleFromResources(name, ver, []pkg.Resource{
 						pkg.NewBytesResource([]byte(PlainText(op.Rules[:op.Multi]))), pkg.NewBytesResource([]byte(PlainText(op.Rules[op.Multi:])))})
 					return nil
 				}
-				berr = builder.NewRuleBuilder(lib).BuildRuleFromResource(name, ver, resrc)
+				berr = lr.builderFor(op.Lib, op.FreshBuilder).BuildRuleFromResource(name, ver, resrc)
 				return nil
 			}()
 			if panicked != nil {
